@@ -251,6 +251,8 @@ def evaluate(case):
         return eval_wide_anyorder(case)
     if "long_run" in case:
         return eval_long_run(case)
+    if "binary_sections" in case:
+        return eval_binary_sections(case)
     ev = Eval()
     L = case["listing"]
     NV = norm_view(L)
@@ -374,7 +376,45 @@ def eval_zone(case):
     return ev
 
 
+def eval_binary_sections(case):
+    """Binary input with a sections list written in another order than the sections have in the file: the scan runs over the
+    instruction stream in file (address) order - what objdump prints for the -j options, whatever their order."""
+    from props.c18_addr_range import _range_binary
+    from vlib.elfw import disassemble_object
+
+    ev = Eval()
+    sc = jasm_io.scratch()
+    path = sc.write("c11_sections.elf", _range_binary())
+    secs = case["binary_sections"]
+    rc, text, _ = disassemble_object(path, secs)
+    tpath = sc.write("c11_sections.s", text)
+    ev.subcases = 0
+    for rule in (["ret"], ["call"], [{"$or": ["push", "pop"]}]):
+        rp = sc.write("c11_sections_rule.yaml", jasm_io.rule_text(jasm_io.make_doc(rule, config={"sections": secs})))
+        b_all = jasm_io.match_files(rp, path, mode="list", search="all", only_addr=True, binary=True)
+        b_first = jasm_io.match_files(rp, path, mode="list", search="first", only_addr=True, binary=True)
+        a_all = jasm_io.match_files(rp, tpath, mode="list", search="all", only_addr=True, binary=False)
+        ev.subcases += 3
+        if b_all[0] != "ok" or a_all[0] != "ok" or b_first[0] != "ok":
+            ev.dev("exception", binary_sections=secs, rule=rule, outcomes=[list(b_all[:2]), list(b_first[:2]), list(a_all[:2])])
+            continue
+        addrs = [int(x, 16) for x in b_all[1]]
+        if addrs != sorted(addrs):
+            ev.dev("not-in-increasing-address-order", binary_sections=secs, rule=rule, observed=b_all[1][:8])
+        elif b_all[1] != a_all[1]:
+            ev.dev("scan-differs-from-text-route", binary_sections=secs, rule=rule, binary_route=b_all[1][:8], text_route=a_all[1][:8])
+        elif b_first[1] != b_all[1][:1]:
+            ev.dev("first-differs-from-all", binary_sections=secs, rule=rule, first=b_first[1], head_of_all=b_all[1][:1])
+    ev.tags = ["binary-sections-order"]
+    ev.nontrivial = True
+    ev.keys = [("binary-sections", tuple(secs))]
+    return ev
+
+
 def _zone_worker(cut):
+    if isinstance(cut, tuple):
+        case = {"binary_sections": list(cut)}
+        return case, eval_binary_sections(case)
     if isinstance(cut, str) and cut in LONG_RUNS:
         case = {"long_run": cut}
         return case, eval_long_run(case)
@@ -447,8 +487,9 @@ def extra(tier, seed, rep):
     from vlib import longlist
 
     with mp.get_context("fork").Pool(16, maxtasksperchild=1) as pool:
-        for case, ev in pool.imap_unordered(_zone_worker, ["near-window-then-genuine", "near-window-only", "two-genuine-adjacent", "more-specific-child"] + sorted(LONG_RUNS) + sorted(longlist.CUTS, reverse=True), chunksize=1):
+        for case, ev in pool.imap_unordered(_zone_worker, [(".text.hot", ".text"), (".text", ".text.hot"), (".text.hot", ".nosuch", ".text")] + ["near-window-then-genuine", "near-window-only", "two-genuine-adjacent", "more-specific-child"] + sorted(LONG_RUNS) + sorted(longlist.CUTS, reverse=True), chunksize=1):
             rep.add_eval(case, ev)
+    rep.exhaustive_parts.append("3 section lists in and out of file order on a linked ELF given as binary: the scan is in address order and equals the text route's")
     rep.exhaustive_parts.append("5 runs of 1000-1003 instructions against repetition bounds of 999 / 1000 followed by more pattern")
     rep.exhaustive_parts.append("4 fixed listings for a 7-child $and_any_order with a doubled / more specific child (windows that fit child by child but not one-to-one)")
     for k_ in (0, 1, 2, 5, 6, 9):
